@@ -316,7 +316,7 @@ func crashViolation(prop string, r Result) (Violation, bool) {
 	}
 	pm = regexp.MustCompile(`0x[0-9a-f]+`).ReplaceAllString(pm, "0x?")
 	pm = regexp.MustCompile(`\[recovered\].*`).ReplaceAllString(pm, "")
-	pm = regexp.MustCompile(`goroutine \d+`).ReplaceAllString(pm, "goroutine N")
+	pm = regexp.MustCompile(`\d+`).ReplaceAllString(pm, "N")
 	if len(rest) > 6000 {
 		rest = rest[:6000]
 	}
